@@ -73,6 +73,13 @@ def lexLiteralC (p : List Byte) : Except LitErr LitTok :=
 def fileText (bytes : List Byte) : Option (List Byte) :=
   ChibiVerif.Gen.PpNum.tokenizeFileText (ChibiVerif.Text.ensureFinalNewline bytes)
 
+/-- the one shape of text on which the libc model of `strtoul` and the digit loop of the hand model differ inside
+    `convert_pp_int`: a hexadecimal prefix followed by a second `0x` / `0X` (libc skips it; `0x0x1f` is read as 31) -/
+def SecondPrefix (p : List Byte) : Prop :=
+  (ChibiVerif.Gen.PpNum.convertPpInt_sel1 p 0).2 = 16 ∧ byteAt p 2 = 48#8 ∧ (byteAt p 3 = 120#8 ∨ byteAt p 3 = 88#8)
+
+instance (p : List Byte) : Decidable (SecondPrefix p) := by unfold SecondPrefix; infer_instance
+
 -- ------------------------------------------------------------------ vocabulary of the pp-number theorem
 
 /-- the part `p[i, j)` of a text -/
